@@ -16,7 +16,7 @@ Record script := mkScript {
 }.
 
 Inductive op :=
-| OpCall (t : nat) (o : opts) (sc : script)     (* HostClient.Do for request id t, until it returns *)
+| OpCall (t : nat) (o : opts) (scs : list script)   (* HostClient.Do for request id t (< 100), until it returns; one script per attempt *)
 | OpSrvMore (t : nat) (n : nat) (cl : bool)     (* the server sends n more symbols on the connection held by t (then closes) *)
 | OpSrvConn (cid : nat) (n : nat) (cl : bool)   (* the same on connection number cid, wherever it is (nothing if it was closed) *)
 | OpStreamRead (t : nat) (n : nat)              (* the caller reads up to n units from resp.BodyStream() *)
@@ -35,13 +35,14 @@ Definition code (o : outcome) : N := match o with OOk => 0 | OTimeout => 1 | OTo
 Definition NOFREE : N := 9%N.
 Definition OUTOFMODEL : N := 99%N.
 
-(* a delivered symbol: 4*tag + class (0 genuine head, 1 body unit that is a crafted head, 2 plain body unit); chunk framing is invisible *)
+(* the a-th attempt (RoundTrip) of request t is thread t + 100*a of the LTS; its symbols carry that tag, the wire carries X-Id t.
+   a delivered symbol: 4*(tag mod 100) + class (0 genuine head, 1 body unit that is a crafted head, 2 plain body unit); chunk framing is invisible *)
 Definition enc_sym (ts : tsym) : list N :=
   match snd ts with
-  | SHead _ => [N.of_nat (4 * fst ts)]
+  | SHead _ => [N.of_nat (4 * (fst ts mod 100))]
   | SChunk _ => []
-  | SBody (Some _) => [N.of_nat (4 * fst ts + 1)]
-  | SBody None => [N.of_nat (4 * fst ts + 2)]
+  | SBody (Some _) => [N.of_nat (4 * (fst ts mod 100) + 1)]
+  | SBody None => [N.of_nat (4 * (fst ts mod 100) + 2)]
   | STerm => []
   end.
 Definition enc (l : list tsym) : list N := flat_map enc_sym l.
@@ -97,25 +98,47 @@ Definition call_obs (s : st) (ts : list nat) (t : nat) : list N :=
   | TNone => [OUTOFMODEL]
   end.
 
-Definition do_call (maxconns : nat) (reset lifo : bool) (d : dst) (t : nat) (o : opts) (sc : script) : dst * list N :=
+(* one RoundTrip as thread u; the result says whether HostClient.Do may try again (RoundTrip's retry flag) *)
+Definition do_attempt (maxconns : nat) (reset lifo : bool) (d : dst) (u : nat) (o : opts) (sc : script) : dst * list N * bool :=
   let s := d_st d in
-  let ts := t :: d_thr d in
+  let ts := u :: d_thr d in
   (* ConnPoolStrategy: LIFO takes the most recently released connection, FIFO (the default) the least recently released one *)
   let from := match s_idle s with [] => None | _ :: r => Some (if lifo then 0 else length r) end in
-  if match from with None => Nat.leb maxconns (held_count s (d_thr d)) | Some _ => false end then (d, [NOFREE]) else
-  match step s (LAcquire t o from) with
-  | None => (d, [OUTOFMODEL])
+  if match from with None => Nat.leb maxconns (held_count s (d_thr d)) | Some _ => false end then (d, [NOFREE], false) else
+  match step s (LAcquire u o from) with
+  | None => (d, [OUTOFMODEL], false)
   | Some s1 =>
-      if sc_wfail sc then let s2 := try_step s1 (LFail t OErr) in (mkD s2 ts (d_rd d), call_obs s2 ts t) else
+      let fin s' := (mkD s' ts (d_rd d), call_obs s' ts u,
+                     match s_thr s' u with TDone _ OTimeout _ | TDone _ OErr _ => true | _ => false end) in
+      if sc_wfail sc then fin (try_step s1 (LFail u OErr)) else
       (* sync.Pool hands back a pooled reader if there is one (which one is unobservable) *)
-      let s2 := try_step s1 (LWrite t reset (match s_rfree s1 with [] => None | _ :: _ => Some 0 end)) in
+      let s2 := try_step s1 (LWrite u reset (match s_rfree s1 with [] => None | _ :: _ => Some 0 end)) in
       (* the scripted server delivers whatever it was holding back on this connection, then reads the request *)
-      let s2 := srv_sends s2 (HeldBy t) 64 in
-      let s3 := try_step s2 (LSrvRead (HeldBy t) (sc_resp sc)) in
-      let s4 := srv_sends s3 (HeldBy t) (sc_send sc) in
-      let s5 := if sc_close sc then try_step s4 (LSrvClose (HeldBy t)) else s4 in
-      let s6 := read_loop 48 s5 t in
-      (mkD s6 ts (d_rd d), call_obs s6 ts t)
+      let s2 := srv_sends s2 (HeldBy u) 64 in
+      let s3 := try_step s2 (LSrvRead (HeldBy u) (sc_resp sc)) in
+      let s4 := srv_sends s3 (HeldBy u) (sc_send sc) in
+      let s5 := if sc_close sc then try_step s4 (LSrvClose (HeldBy u)) else s4 in
+      fin (read_loop 48 s5 u)
+  end.
+
+(* HostClient.Do: the retry loop (all requests of the replay are idempotent: GET / HEAD) *)
+Fixpoint do_call (maxconns : nat) (reset lifo : bool) (d : dst) (t a : nat) (o : opts) (scs : list script) : dst * list N :=
+  match scs with
+  | [] => (d, [OUTOFMODEL])
+  | sc :: rest =>
+      let '(d1, ob, again) := do_attempt maxconns reset lifo d (t + 100 * a) o sc in
+      match rest with
+      | _ :: _ => if again then do_call maxconns reset lifo d1 t (S a) o rest else (d1, ob)
+      | [] => (d1, ob)
+      end
+  end.
+
+(* the thread that stands for request t now: its last attempt *)
+Definition cur (s : st) (t : nat) : nat :=
+  match s_thr s (t + 200), s_thr s (t + 100) with
+  | TRun _ _ _, _ => t + 200
+  | _, TRun _ _ _ => t + 100
+  | _, _ => t
   end.
 
 Fixpoint clean_idle (n : nat) (s : st) : st :=
@@ -183,8 +206,9 @@ Definition firstn_skipn {A} (a n : nat) (l : list A) : list A := firstn n (skipn
 Definition do_op (maxconns : nat) (reset lifo : bool) (d : dst) (o : op) : dst * list N :=
   let s := d_st d in
   match o with
-  | OpCall t o sc => do_call maxconns reset lifo d t o sc
-  | OpSrvMore t n cl =>
+  | OpCall t o scs => do_call maxconns reset lifo d t 0 o scs
+  | OpSrvMore t0 n cl =>
+      let t := cur s t0 in
       let s1 := srv_sends s (HeldBy t) n in
       let s2 := if cl then try_step s1 (LSrvClose (HeldBy t)) else s1 in
       (mkD s2 (d_thr d) (d_rd d), [])
@@ -196,7 +220,8 @@ Definition do_op (maxconns : nat) (reset lifo : bool) (d : dst) (o : op) : dst *
           (mkD s2 (d_thr d) (d_rd d), [])
       | None => (d, [])
       end
-  | OpStreamRead t n =>
+  | OpStreamRead t0 n =>
+      let t := cur s t0 in
       match s_thr s t with
       | TRun x PHold _ =>
           let a := rd_count d t in
@@ -206,7 +231,8 @@ Definition do_op (maxconns : nat) (reset lifo : bool) (d : dst) (o : op) : dst *
       | TRun _ _ _ => let '(s1, ob) := stream_loop (S (S (n + n))) n s t [] in (mkD s1 (d_thr d) (d_rd d), ob)
       | _ => (d, [OUTOFMODEL])
       end
-  | OpCloseStream t werr =>
+  | OpCloseStream t0 werr =>
+      let t := cur s t0 in
       match step s (LCloseStream t werr) with
       | Some s1 => (mkD s1 (d_thr d) (d_rd d), pool_obs s1 (d_thr d))
       | None => (d, [OUTOFMODEL])
